@@ -597,6 +597,33 @@ def _run_rest(chk, fx):
         if len(init) != 1 or strip(init[0].get("init") or {}).get("n") != "MESS":
             chk.violation(r_ts, wname + ":default", "%s: the array type no longer defaults to MESS before the element type is inspected" % wname, w["file"], w["l"])
 
+    # ---- C07.getsel: typed accessors ask for the array type that belongs to the container they return from
+    r_gs = chk.rule("C07.getsel", "the typed read accessors of the result-file classes (EclFile, ERst, EInit, EGrid): every getImpl(index, TYPE, container, ...) pairs INTE with inte_array, REAL with real_array, DOUB with doub_array, LOGI with logi_array; an accessor that RETURNS strings from char_array accepts both string types - it passes the array's own type array_type[index] (after checking it is CHAR or C0NN) or delegates to get<std::string>(index) - so an array that can be read by index can be read by name", floor=25)
+    gx_units = [u for u in ("opm/io/eclipse/EclFile.cpp", "opm/io/eclipse/ERst.cpp", "opm/io/eclipse/EInit.cpp", "opm/io/eclipse/EGrid.cpp", "opm/io/eclipse/ERft.cpp", "opm/io/eclipse/ESmry.cpp")]
+    gxf = chk.facts(gx_units)
+    PAIR = {"INTE": "inte_array", "REAL": "real_array", "DOUB": "doub_array", "LOGI": "logi_array"}
+    for f in gxf.fns:
+        if not f.get("body") or not f["file"].startswith(core.REPO + "/opm/io/eclipse/"):
+            continue
+        for n in walk(f["body"]):
+            if n["k"] not in ("Call", "MCall") or (n.get("m") or (n.get("fn") or "").split("::")[-1]) != "getImpl" or len(n.get("a") or []) < 3:
+                continue
+            ty = strip(n["a"][1])
+            cont = show(strip(n["a"][2])).replace("this.", "")
+            tname = ty.get("n") if ty.get("k") == "Ref" and ty.get("d") == "Enum" else None
+            key = "%s@%d" % (f["q"], n["l"])
+            returned = any(r_["k"] == "Return" and isinstance(r_.get("e"), dict) and any(x is n for x in walk(r_["e"])) for r_ in walk(f["body"]))
+            chk.instance(r_gs, key, sample=dict(function=f["q"], line=n["l"], type=show(ty), container=cont, returned=returned))
+            if tname in PAIR:
+                if cont != PAIR[tname]:
+                    chk.violation(r_gs, key, "%s: getImpl asks for type %s but returns from %s (expected %s)" % (f["q"], tname, cont, PAIR[tname]), f["file"], n["l"])
+            elif cont in PAIR.values():
+                chk.violation(r_gs, key, "%s: getImpl returns from %s with type argument `%s`" % (f["q"], cont, show(ty)), f["file"], n["l"])
+            elif cont == "char_array" and returned:
+                own = show(ty).replace("this.", "") == "array_type[%s]" % show(strip(n["a"][0]))
+                if not own:
+                    chk.violation(r_gs, key, "%s returns strings through getImpl(%s, %s, char_array): arrays of the other string type (entries longer than 8 characters are C0NN) are rejected with 'is not of type string' although get<std::string>(index) reads them; pass array_type[index] after the CHAR/C0NN test, or delegate to get<std::string>" % (f["q"], show(n["a"][0]), show(ty)), f["file"], n["l"])
+
     # ---- C07.payload: what lies between the head and the tail marker of a binary block is read
     r_pl = chk.rule("C07.payload", "readBinaryArray: in every block, between the read of the head marker and the read of the tail marker the payload is read - num elements of the element size into the buffer the values are taken from (per element for strings) - and every element read is appended to the result through the byte-order conversion", floor=2)
     rb_ = [f for f in fx.fns if f["n"] == "readBinaryArray" and f.get("body") and f["file"].endswith("EclUtil.cpp")]
